@@ -33,7 +33,7 @@ fn mk_stack<const D: usize>(vals: &[[f64; N]; D]) -> Vec<Vec<f64>> {
 }
 
 fn legacy_push<const D: usize>(f: [bool; 4]) {
-    let vals: [[f64; N]; D] = kani::any();
+    let vals: [[f64; N]; D] = nd();
     let mut stack = mk_stack::<D>(&vals);
     let ops0 = [any_c4(), any_c4()];
     let mut ops = ops0;
@@ -61,7 +61,7 @@ fn legacy_push<const D: usize>(f: [bool; 4]) {
 }
 
 fn legacy_pop<const D: usize>(f: [bool; 4]) {
-    let vals: [[f64; N]; D] = kani::any();
+    let vals: [[f64; N]; D] = nd();
     let mut stack = mk_stack::<D>(&vals);
     let ops0 = [any_c4(), any_c4()];
     let mut ops = ops0;
@@ -104,7 +104,7 @@ fn legacy_pop<const D: usize>(f: [bool; 4]) {
 
 // push F followed by pop F restores operands and stack
 fn legacy_roundtrip(f: [bool; 4]) {
-    let vals: [[f64; N]; 1] = kani::any();
+    let vals: [[f64; N]; 1] = nd();
     let mut stack = mk_stack::<1>(&vals);
     let ops0 = [any_c4(), any_c4()];
     let mut ops = ops0;
